@@ -42,6 +42,7 @@ func init() {
 			{Name: "dialer-protocol-refusal-then-takeover", Mode: "enum", Reset: kit.ResetGlobals, Cfg: vsched.Config{RandFree: true}, Body: protocolRefusal,
 				NeedCounters: []string{"redial-after-protocol-refusal", "took-over-after-first-peer-left"}},
 			{Name: "dialer-close-during-dial", Mode: "sched", Bound: map[string]int{"quick": 2, "thorough": 3}[tier], Reset: kit.ResetGlobals, Body: closeDuringDial},
+			{Name: "socket-close-vs-new-dialer", Mode: "sched", Bound: map[string]int{"quick": 2, "thorough": 3}[tier], Reset: kit.ResetGlobals, Body: closeVsNewDialer},
 		}
 	})
 }
@@ -363,6 +364,40 @@ func closeDuringDial() {
 	_ = s.Close()
 }
 
+// closeVsNewDialer: the socket is closed while another goroutine creates and starts a dialer
+// (NewDialer with options, then Dial).  Whichever way the race goes, once both have returned no
+// connection attempt is ever started: either the dialer was never handed out / refuses to dial,
+// or it was closed with the socket.
+func closeVsNewDialer() {
+	s, _ := xpub.NewSocket()
+	ep := vt.Get("cvn")
+	ep.Script(vt.DialRefused)
+	_ = s.SetOption(mangos.OptionReconnectTime, 100*time.Millisecond)
+	dc := kit.Start("NewDialer+Dial", func() (interface{}, error) {
+		d, err := s.NewDialer("vt://cvn", map[string]interface{}{mangos.OptionDialAsynch: true, mangos.OptionMaxRecvSize: 4096})
+		if err != nil {
+			return "NewDialer", err
+		}
+		return "Dial", d.Dial()
+	})
+	cc := kit.Start("Close", func() (interface{}, error) { return nil, s.Close() })
+	kit.Quiesce()
+	if !dc.Done() || !cc.Done() {
+		kit.Failf("close-vs-newdialer-blocked", "NewDialer+Dial done=%v, Close done=%v", dc.Done(), cc.Done())
+	}
+	kit.Quiesce()
+	n := ep.NumDials()
+	kit.Sleep(10 * time.Second)
+	kit.Quiesce()
+	if ep.NumDials() != n {
+		kit.Failf("dial-after-close", "the socket was closed while a dialer was being created (%v returned %s): %d connection attempt(s) were started after Close and Dial had both returned", dc.Val, kit.ErrName(dc.Err), ep.NumDials()-n)
+	}
+	if bad := kit.Census(); bad != "" {
+		kit.Failf("leak-after-close", "after Close vs NewDialer+Dial: %s", bad)
+	}
+	kit.Observe("%v %s dials=%d", dc.Val, kit.ErrName(dc.Err), n)
+}
+
 // protocolRefusal: the transport connection succeeds but the protocol refuses the pipe (a PAIR
 // socket that already has a peer).  The dialer has to keep trying at its back-off pace, and takes
 // over as soon as the first peer has gone.
@@ -458,4 +493,5 @@ func protocolRefusal() {
 // Bodies re-run by C11 under the race-instrumented build.
 var RaceBodies = map[string]func(){
 	"c14-close-during-dial": closeDuringDial,
+	"c14-close-vs-new-dialer": closeVsNewDialer,
 }
